@@ -80,6 +80,14 @@ def directed(prop, world, quick):
                  {"op": "leave", "c": 2, "chat": 1}, {"op": "chat", "c": 3, "chat": 1, "msg": [106], "emote": False}]
         out.append({"world": world, "steps": steps})
     if prop == "C04":
+        # handshakes that differ from TRTP/HOTL in letter case only, followed by valid credentials
+        steps, c = [], 0
+        for hs in ("lower", "mixed", "badproto", "badsub"):
+            c += 1
+            steps.append({"op": "rawfail", "c": c, "addr": "10.1.1.%d" % (c if c != 2 else 12), "hs": hs, "matches": True, "sentFirst": True,
+                          "login": "adm", "pw": [1], "trailing": 2})
+        steps += [connect(c + 1, "10.2.2.2"), login(c + 1, "adm", [1]), {"op": "userlist", "c": c + 1}]
+        out.append({"world": world, "steps": steps})
         # the bitwise complement of the right password field (the clear password where the obfuscated one belongs)
         for who, pw in (("adm", [1]), ("mute", [2])):
             comp = [255 - b for b in pw]
@@ -129,11 +137,22 @@ def directed(prop, world, quick):
                  {"op": "userlist", "c": 1}, {"op": "closebegin", "c": 2}, {"op": "userlist", "c": 1}, {"op": "pm", "c": 3, "target": 2, "msg": [112]},
                  {"op": "closeend", "c": 2}, {"op": "userlist", "c": 1}, {"op": "userlist", "c": 3}]
         out.append({"world": world, "steps": steps})
+        # a kick with a ban while another user is connected from the victim's address: only the addressed user goes
+        for ban in (0, 1, 2):
+            steps = [connect(1), login(1, "adm", [1]), connect(2, "10.2.2.2"), login(2), connect(3, "10.2.2.2"), login(3, name=B),
+                     {"op": "userlist", "c": 1}, {"op": "kick", "c": 1, "target": 2, "ban": ban}, {"op": "userlist", "c": 1},
+                     {"op": "pm", "c": 1, "target": 3, "msg": [112]}, {"op": "userlist", "c": 3}]
+            out.append({"world": world, "steps": steps})
         # away and back: everybody, the user itself included, is told both times
         steps = [connect(1), login(1, "adm", [1]), connect(2, "10.2.2.2"), login(2), {"op": "userlist", "c": 1}, {"op": "userlist", "c": 2},
                  {"op": "goneidle", "c": 2}, {"op": "wake", "c": 2}, {"op": "userlist", "c": 1}, {"op": "userlist", "c": 2}]
         out.append({"world": world, "steps": steps})
     if prop == "C17":
+        # the administrator and the victim connected from the same address (NAT): the ban is recorded all the same
+        for ban in (1, 2):
+            steps = [connect(1, "10.2.2.2"), login(1, "adm", [1]), connect(2, "10.2.2.2"), login(2), {"op": "kick", "c": 1, "target": 2, "ban": ban},
+                     connect(3, "10.2.2.2"), {"op": "restart"}, connect(4, "10.2.2.2"), connect(5, "10.1.1.1"), login(5)]
+            out.append({"world": world, "steps": steps})
         # a temporary ban over an entry that has run out, and over one that is still running (second user behind the
         # same address, logged in before the first ban)
         for first in ("past", "soon"):
